@@ -163,6 +163,97 @@ Lemma no_compression_ok : forall (Byte : Type) (bs r : list (list Byte)),
   concat r = concat ((fun x => x) bs) -> exists bs', (fun x => Some x) r = Some bs' /\ concat bs' = concat bs.
 Proof. intros Byte bs r H. exists r. auto. Qed.
 
+(* ---- lines=False: a file holding ONE document.  file.read(size=-1) hands the whole file over in one chunk,
+   the stages deliver it in one non-empty piece (plus empty flush items), load parses that piece. ---- *)
+Section JsonDocProofs.
+Variable Obj : Type.
+Variable Ch : Type.
+Variable Byte : Type.
+Variable nl : Ch.
+Variable dumps : Obj -> list Ch.
+Variable loads : list Ch -> option Obj.
+Variable is_null : Obj -> bool.
+Variable encode : list (list Ch) -> list (list Byte).
+Variable decode : list (list Byte) -> option (list (list Ch)).
+Variable compress : list (list Byte) -> list (list Byte).
+Variable decompress : list (list Byte) -> option (list (list Byte)).
+
+(* orjson accepts the newline dump appended after the document *)
+Hypothesis H_loads_dumps_nl : forall o, loads (dumps o ++ [nl]) = Some o.
+(* text codec: fed the whole encoded text in ONE non-empty item (and any number of empty ones), the decoder
+   delivers the whole text in ONE non-empty item (and any number of empty ones) *)
+Hypothesis H_text_codec_whole : forall cs r, drop_empty r = drop_empty [concat (encode cs)] ->
+  exists cs', decode r = Some cs' /\ drop_empty cs' = drop_empty [concat cs].
+(* compression stage: the same (trivially true for compression=None) *)
+Hypothesis H_compression_whole : forall bs r, drop_empty r = drop_empty [concat (compress bs)] ->
+  exists bs', decompress r = Some bs' /\ drop_empty bs' = drop_empty [concat bs].
+
+Notation load_items := (load_items Obj Ch loads is_null).
+Notation dump_to_file := (dump_to_file Obj Ch Byte nl dumps encode compress).
+Notation load_doc_chunks := (load_doc_chunks Obj Ch Byte loads is_null decode decompress).
+Notation load_doc_from_file := (load_doc_from_file Obj Ch Byte loads is_null decode decompress).
+
+(* load does not see empty items *)
+Lemma load_items_drop_empty : forall ign cs, load_items ign cs = load_items ign (drop_empty cs).
+Proof.
+  intros ign. induction cs as [|c cs IH]; [reflexivity|].
+  unfold drop_empty. cbn [filter JsonLines.load_items]. destruct (length c =? 0) eqn:E; cbn [negb].
+  - exact IH.
+  - cbn [JsonLines.load_items]. rewrite E. fold (drop_empty cs). rewrite <- IH. reflexivity.
+Qed.
+
+Lemma file_read_all_drop_empty : forall f : list Byte, drop_empty (file_read_all Byte f) = drop_empty [f].
+Proof. intros [|b f]; reflexivity. Qed.
+
+Lemma file_read_all_concat : forall f : list Byte, concat (file_read_all Byte f) = f.
+Proof. intros [|b f]; cbn; [reflexivity|]. now rewrite app_nil_r. Qed.
+
+Lemma file_read_all_sizes : forall f : list Byte,
+  map (fun ch => N.of_nat (length ch)) (file_read_all Byte f) = doc_read_sizes (N.of_nat (length f)).
+Proof. intros [|b f]; reflexivity. Qed.
+
+(* any chunk sequence whose only non-empty item is the whole dumped file loads to the document *)
+Theorem load_doc_chunks_dump_one : forall o r ign, is_null o = false ->
+  drop_empty r = drop_empty [dump_to_file [o]] ->
+  load_doc_chunks 0 ign r = ([o], true).
+Proof.
+  intros o r ign Hn H. unfold JsonLines.dump_to_file, file_write in H.
+  destruct (H_compression_whole _ r H) as (bs & Hd & Hb).
+  destruct (H_text_codec_whole _ bs Hb) as (cs & Hc & Hcc).
+  unfold JsonLines.load_doc_chunks. rewrite Hd, Hc. unfold json_load. cbn [skipn].
+  rewrite load_items_drop_empty, Hcc.
+  unfold JsonLines.json_dump. cbn [map concat]. rewrite app_nil_r.
+  unfold drop_empty. cbn [filter]. rewrite app_length. cbn [length].
+  replace (length (dumps o) + 1 =? 0) with false by (symmetry; apply Nat.eqb_neq; lia).
+  cbn [negb JsonLines.load_items]. rewrite app_length. cbn [length].
+  replace (length (dumps o) + 1 =? 0) with false by (symmetry; apply Nat.eqb_neq; lia).
+  now rewrite H_loads_dumps_nl, Hn.
+Qed.
+
+Theorem load_doc_from_file_dump_one : forall o ign, is_null o = false ->
+  load_doc_from_file 0 ign (dump_to_file [o]) = ([o], true).
+Proof.
+  intros o ign Hn. unfold JsonLines.load_doc_from_file. apply load_doc_chunks_dump_one; [assumption|].
+  apply file_read_all_drop_empty.
+Qed.
+
+(* through a raw stream: readall() joins the short reads; when every read call delivers at least one byte
+   until the end of the data the result is the file, so the round trip is the same *)
+Theorem load_doc_raw_stream_dump_one : forall o buf caps ign, is_null o = false ->
+  0 < buf -> Forall (fun c => 0 < c) caps -> length (dump_to_file [o]) <= length caps ->
+  load_doc_chunks 0 ign (file_read_all Byte (raw_readall Byte buf caps (dump_to_file [o]))) = ([o], true).
+Proof.
+  intros o buf caps ign Hn Hb HF HL. unfold raw_readall.
+  rewrite (raw_read_enough Byte buf caps _ Hb HF HL). now apply load_doc_from_file_dump_one.
+Qed.
+End JsonDocProofs.
+
+(* compression=None satisfies the whole-item premise *)
+Lemma no_compression_whole_ok : forall (Byte : Type) (bs r : list (list Byte)),
+  drop_empty r = drop_empty [concat ((fun x => x) bs)] ->
+  exists bs', (fun x => Some x) r = Some bs' /\ drop_empty bs' = drop_empty [concat bs].
+Proof. intros Byte bs r H. exists r. auto. Qed.
+
 (* ---- the length-level abstraction agrees with Framing.Line ---- *)
 Section Lengths.
 Variable C : Type.
